@@ -135,7 +135,14 @@ def check(repo: Repo, rep: Report) -> None:
     # trim
     tr = repo.fn(R, "ReplaySubject._trim")
     whiles = [s for s in sites(tr) if isinstance(s.node, ast.While)]
-    rep.require(len(whiles) == 2, "two trimming loops in _trim")
+    allpops = [x for x in sites(tr) if isinstance(x.node, ast.Call) and dotted(x.node.func) in ("self.queue.popleft", "self.queue.pop")]
+    okp = bool(allpops) and all(any(isinstance(l_, ast.While) for l_ in x.ctx.loops) for x in allpops)
+    rep.ob("RP3-trim-bounds", tr, f"_trim: every drop ({len(allpops)}) re-tests the head of the buffer (it is inside a `while`)", okp,
+           "_trim drops a pre-computed number of values instead of re-testing the head before each drop: a value that is both too old and over "
+           "the count is counted twice, and values that must be retained are removed")
+    tests_ = " ; ".join(u(w.node.test) for w in whiles)
+    rep.ob("RP3-trim-bounds", tr, "_trim enforces both bounds (count and age)", "buffer_size" in tests_ and "interval" in tests_,
+           "_trim no longer enforces the count bound and the age bound")
     for w in whiles:
         t = w.node.test
         pops = [x for x in ast.walk(w.node) if isinstance(x, ast.Call) and dotted(x.func) == "self.queue.popleft"]
